@@ -8,6 +8,7 @@ import (
 	"github.com/canopy-network/canopy/fsm"
 	"github.com/canopy-network/canopy/lib"
 	"github.com/canopy-network/canopy/lib/crypto"
+	"github.com/canopy-network/canopy/store"
 	"google.golang.org/protobuf/proto"
 
 	"verif/h/keys"
@@ -145,6 +146,7 @@ type TwoChain struct {
 	Root, Nested *Chain
 	RootID, NID  uint64
 	lastRC       uint64 // last root height a nested block was built on (certificate root heights never decrease)
+	last         *Chain // chain driven last (see Use)
 }
 
 // NewTwoChain wires two chains created by the caller (root: Opts.ChainID = rootID; nested: Opts.ChainID = nestedID and
@@ -155,6 +157,22 @@ func NewTwoChain(root, nested *Chain) *TwoChain {
 
 // Close releases both chains.
 func (t *TwoChain) Close() { t.Root.Close(); t.Nested.Close() }
+
+// Use must be called before driving chain c when the other chain was driven last: canopy's store keeps a process-wide block
+// cache keyed by height only (one node per process in production); two chains in one process would read each other's blocks
+// (LoadBlock(h-1) seeds the pseudo-random order of DEX execution and the last-block fields of the header).
+func (t *TwoChain) Use(c *Chain) {
+	if t.last != c {
+		store.VerifPurgeBlockCache()
+		t.last = c
+	}
+}
+
+// RootBlock = Use(Root) + Root.Block(spec).
+func (t *TwoChain) RootBlock(spec BlockSpec) (*Outcome, error) {
+	t.Use(t.Root)
+	return t.Root.Block(spec)
+}
 
 // RootDexBatchAt is what RCManager.GetDexBatch(root, rootHeight, nested, withPoints) answers: the root chain's LOCKED
 // batch for the nested committee as of the root state at rootHeight (= state before root block rootHeight).
@@ -199,6 +217,7 @@ func (t *TwoChain) NestedBlock(txs [][]byte, rcBuildHeight uint64, extra func(re
 	if err != nil {
 		return nil, err
 	}
+	t.Use(t.Nested)
 	// controller/tx.go: the mempool FSM caches the root batch before ApplyBlock
 	t.Nested.FSM.SetRootDexCache(proto.Clone(rootBatch).(*lib.DexBatch))
 	out := t.Nested.Propose(BlockSpec{Txs: txs, RootHeight: rcBuildHeight})
